@@ -116,7 +116,7 @@ static WB_BOOL is_literal(WBXMLParser *parser);
 static WB_BOOL is_attr_value(WBXMLParser *parser);
 static WB_BOOL is_string(WBXMLParser *parser);
 static WB_BOOL is_extension(WBXMLParser *parser);
-static WB_BOOL check_public_id(WBXMLParser *parser);
+static WB_BOOL check_public_id(WBXMLParser *parser, WBXMLError *error);
 
 /* Parse functions */
 static WBXMLError parse_version(WBXMLParser *parser);
@@ -293,9 +293,10 @@ WBXML_DECLARE(WBXMLError) wbxml_parser_parse(WBXMLParser *parser, WB_UTINY *wbxm
     CHECK_ERROR
 
     /* Now that we have parsed String Table, we can check Public ID */
-    if (!check_public_id(parser)) {
+    ret = WBXML_ERROR_UNKNOWN_PUBLIC_ID;
+    if (!check_public_id(parser, &ret)) {
         WBXML_ERROR((WBXML_PARSER, "PublicID not found"));
-        return WBXML_ERROR_UNKNOWN_PUBLIC_ID;
+        return ret;
     }
 
     /* Call to WBXMLStartDocumentHandler */
@@ -547,9 +548,11 @@ static WB_BOOL is_extension(WBXMLParser *parser)
 /**
  * @brief Check the Public ID
  * @param parser The WBXML Parser
+ * @param error  [out] Set to WBXML_ERROR_NOT_ENOUGH_MEMORY if the Public ID could not be looked up for lack of memory
+ *                     (left untouched otherwise)
  * @return TRUE if Public ID is found, FALSE otherwise
  */
-static WB_BOOL check_public_id(WBXMLParser *parser)
+static WB_BOOL check_public_id(WBXMLParser *parser, WBXMLError *error)
 {
     WBXMLBuffer *public_id = NULL;
     WB_LONG          index = 0;
@@ -618,6 +621,11 @@ static WB_BOOL check_public_id(WBXMLParser *parser)
         ret = get_strtbl_reference(parser, (WB_ULONG) parser->public_id_index, &public_id);
         if (ret != WBXML_OK) {
             WBXML_ERROR((WBXML_PARSER, "Bad publicID reference in string table. %s", wbxml_errors_string(ret)));
+
+            /* Running out of memory is not an unknown Public ID */
+            if (ret == WBXML_ERROR_NOT_ENOUGH_MEMORY)
+                *error = ret;
+
             return FALSE;
         }
 
